@@ -78,6 +78,9 @@ BIN = {
     "or": operator.or_, "lt": operator.lt, "le": operator.le, "eq": operator.eq, "ne": operator.ne,
     "gt": operator.gt, "ge": operator.ge,
 }
+IOP = {"add": operator.iadd, "sub": operator.isub, "mul": operator.imul, "truediv": operator.itruediv,
+       "floordiv": operator.ifloordiv, "mod": operator.imod, "pow": operator.ipow, "lshift": operator.ilshift,
+       "rshift": operator.irshift, "and": operator.iand, "xor": operator.ixor, "or": operator.ior}
 UN = {"neg": operator.neg, "pos": operator.pos, "abs": abs, "invert": operator.invert}
 MK = {"priv": PrivVal, "pub": PubVal, "const": ConstVal, "privb": PrivValBool, "pubb": PubValBool,
       "privx": PrivValFxp, "pubx": PubValFxp}
@@ -104,6 +107,8 @@ class Interp:
         self.regs = []
         self.err = None
         self.nc = []        # number of constraints / private wires after each instruction
+        self.mutated = []   # `iop` instructions after which the receiver's ORIGINAL register shows another value ("instr:register")
+        self.p = 0
 
     def match_leave(self, start):
         depth = 0
@@ -154,6 +159,15 @@ class Interp:
             return LinCombFxp(r[reg(ins[1])])
         if op == "bin":
             return BIN[ins[1]](r[reg(ins[2])], r[reg(ins[3])])
+        if op == "iop":
+            # augmented assignment on a second reference: `t = regs[A]; t op= regs[B]`; the new register is t, regs[A] stays a
+            # reference to the original object (operator.iadd(a, b) is exactly `a += b`: type(a).__iadd__ if defined, else a + b)
+            t = r[reg(ins[2])]
+            before = canon.val_str(t, self.p, CLASSES)
+            t = IOP[ins[1]](t, r[reg(ins[3])])
+            if canon.val_str(r[reg(ins[2])], self.p, CLASSES) != before:
+                self.mutated.append(f"{self.pos}:{reg(ins[2])}")      # the object the original register refers to is no longer what it was
+            return t
         if op == "un":
             return UN[ins[1]](r[reg(ins[2])])
         if op == "call":
@@ -232,6 +246,7 @@ def handle_prog(fields):
     reset(cfg)
     instrs = [t.split() for t in progs.split(";") if t.strip()]
     it = Interp(instrs)
+    it.p = p
     status = "ok"
     try:
         it.run_range(0, len(instrs))
@@ -251,7 +266,7 @@ def handle_prog(fields):
                 incoh.append(i)
                 break
     nc = ",".join(f"{a}/{b}" for a, b in it.nc[:len(it.regs)])
-    extra = f"UNSAT={','.join(map(str, unsat))}|INCOH={','.join(map(str, incoh))}|DIRTY={int(any(dirty))}|NC={nc}"
+    extra = f"UNSAT={','.join(map(str, unsat))}|INCOH={','.join(map(str, incoh))}|DIRTY={int(any(dirty))}|NC={nc}|MUT={','.join(it.mutated)}"
     return f"{cid}|{status}|{regs}|{state_str(p)}|{extra}"
 
 
